@@ -687,6 +687,34 @@ def run_runner_check(chk, pid, proj, opts, n_quick=400, n_thorough=6000, extra_s
     return seqs, obs
 
 
+def slow_hooks_part(chk, pid, opts, n_quick=150, n_thorough=1500):
+    """scripts whose on_metric / before_sleep / sleep-handler callbacks take time (the virtual clock moves inside them).  The
+    model has no such world (time passes only in the operation and the sleeper), so nothing is compared with it; the data-flow
+    clause of the property (oracles.delay_flow) is evaluated on the implementation alone.  It supports the search for a failing
+    input when a translation no longer checks (a delay re-computed after a slow hook)."""
+    import oracles
+    o = dict(opts, p_tight_deadline=0.8, p_metric=0.9, p_bs=0.7, p_handler=0.5, handler_choices=["S", "S", "S", "D"], p_special=0.0,
+             p_att_timeout=0.0, p_abort=0.1)
+    seqs = []
+    for _ in range(n_quick if chk.tier == "quick" else n_thorough):
+        s = gen_sequence(chk.rng, o)
+        for c in s["calls"]:
+            c["variant"]["hook_cost"] = chk.rng.choice([1, 2, 3, 8, 64])
+            c["env"]["strat"] = [chk.rng.choice([3, 5, 8, 13, 20, 2**20]) for _ in c["env"]["strat"]]
+        seqs.append(s)
+    obs = run_impl(seqs, jobs=min(16, common.NPROC))
+    drv = [o2["delivery"] for ob in obs for o2 in ob if o2["delivery"][0] == "driver_error"]
+    if drv:
+        raise common.DriverError("runner_driver failed on a slow-hook script: " + str(drv[0][1])[-1500:])
+    bad = [(i, m) for i, (s, ob) in enumerate(zip(seqs, obs)) for m in [oracles.check_seq("DELAYFLOW", s, ob)] if m]
+    retries = sum(1 for ob in obs for c in ob for e in c["trace"] if e[0] == "SL")
+    chk.coverage["slow_hook_scripts"] = {"scripts": len(seqs), "sleeps_observed": retries, "oracle": "delay_flow (no model)"}
+    if bad and not chk.violations:
+        i, m = bad[0]
+        chk.violation({"kind": "oracle", "oracle": "DELAYFLOW", "part": "slow-hooks", "what": m, "script": seqs[i], "observed": obs[i],
+                       "driver": "runner_driver", "also_failing": len(bad)})
+
+
 def replay_runner(path):
     import oracles
     r = json.load(open(path))
